@@ -315,6 +315,8 @@ def check_variant(chk, v):
     if len(d["loops"]) != 2:
         chk.broken("digit statement is not in a (p, j) nest")
     pl, jl = d["loops"]
+    if "var" not in pl or "var" not in jl:
+        chk.broken("digit statement at line %s: a loop of its nest has no closed form" % d["line"])
     pv, jv = pl["var"], jl["var"]
     # value = field - H
     val = R(d["val"])
